@@ -18,7 +18,8 @@ prop(
     batches={"quick": 4, "thorough": 4},
     race_batches={"quick": 2, "thorough": 2},
     rule="complete domain: every (method 0..4095, class 0..3) pair through MessageType.Value and every 16-bit wire "
-         "value through MessageType.ReadValue, each compared with a table built bit by bit from RFC 5389 figure 3; "
+         "value through MessageType.ReadValue, each compared with a table built bit by bit from RFC 5389 figure 3, in release, debug and race builds, plus 8 goroutines sweeping "
+         "the domain concurrently in different orders; "
          "distinct = distinct (direction, wire value) points, all non-trivial",
     exhaustive_all=["value", "readvalue"],
     assumptions=["ref.JoinType/SplitType transcribe RFC 5389 figure 3 correctly (cross-checked against RFC 5769 vector types at start-up)"],
@@ -33,7 +34,8 @@ prop(
     rule="inputs drawn per index from a seeded generator (uniform random, cookie+plausible length, canonical valid, "
          "dirty-valid with random padding/leading bits/trailing bytes, 1-3 structural mutations of valid messages and of the "
          "repository fuzz corpus/RFC 5769 vectors, large (<=65555 B) and truncated messages); each input goes through 7 entry "
-         "points x 2 placements (cap==len red-zone; spare capacity poisoned 0x00/0xFF/random/plausible). evaluations = "
+         "points x 2 placements (cap==len red-zone; spare capacity poisoned 0x00/0xFF/random/plausible); half of the destinations "
+         "already hold a decoded message with attributes (receivers are reused in practice). evaluations = "
          "entry-point calls; distinct_nontrivial = distinct input byte strings (FNV-64 of the bytes)",
     max_counters=["max_alloc_bytes_per_call"],
     assumptions=[
@@ -50,7 +52,8 @@ prop(
     rule="(a) bounded-exhaustive length structures: declared length L=0..B (B=36 quick, 52 thorough), buffer length 20+L+d for "
          "d in {-3,-2,-1,0,1,4,7}, and recursively every sequence of attribute length fields from {0,1,2,3,4,5,7,8,r-4..r+3,0xFFFF} "
          "(r = remaining body), types cycling incl. 0x8020; (b) all 65536 type-field values; (c) seeded random/mutated inputs. "
-         "Each input: library Decode verdict and content vs independent parser, then Get/Contains/ForEach (complete walk, callback "
+         "Each input (one in three decoded into a destination that already lists another message's attributes): library Decode verdict "
+         "and content vs independent parser, then Get/Contains/ForEach (complete walk, callback "
          "error and callback panic at the k-th visit) vs list semantics. distinct_nontrivial = distinct input byte strings "
          "(accepted ones hashed with their (count, length residues) signature) plus distinct (reject reason, length mod 64) classes",
     assumptions=[
@@ -63,7 +66,8 @@ prop(
     timeout={"quick": 300, "thorough": 3000},
     rule="seeded random sequences of building operations (Add/RawAttribute, SetType/MessageType.AddTo, 4 transaction-id setters, "
          "6 address setters, 4 text setters, ErrorCodeAttribute/ErrorCode, UnknownAttributes, MessageIntegrity short/long-term, "
-         "Fingerprint, Encode, WriteHeader, CloneTo, Build(setters), Write* helpers) from 4 start states (Build on fresh, "
+         "Fingerprint, Encode, WriteHeader, CloneTo, Build(setters), Build with a failing setter, editing the struct's attribute list "
+         "(truncate, remove anywhere, hand-built list with arbitrary Length fields) followed by Encode, Write* helpers) from 4 start states (Build on fresh, "
          "WriteHeader/Encode on new/New(), Build on a poisoned reused buffer, a decoded dirty message); after EVERY operation the "
          "monitor checks cookie/length/padding, reference parse == shadow list, struct == shadow, library decode == struct, Equal, "
          "and canonical bytes after Encode. evaluations = sequences; distinct_nontrivial = distinct operation-name sequences",
@@ -83,7 +87,8 @@ prop(
     rule="(a) hand-encoded messages: 0..8 attributes before MESSAGE-INTEGRITY, 0..4 after (all residues, incl. FINGERPRINT and a second "
          "MESSAGE-INTEGRITY), MAC variants correct/random/other-key/truncated 0,4,19/extended 21,24/bit-flipped/absent, random padding, "
          "leading type bits, trailing bytes, keys 0..200 B incl. 63/64/65; (b) library-signed messages (short- and long-term) checked "
-         "under the right key and 3 wrong keys, appended bytes compared with the oracle MAC, refusal after FINGERPRINT; (c) every "
+         "under the right key and 3 wrong keys, appended bytes compared with the oracle MAC, refusal after FINGERPRINT; (b2) one key "
+         "buffer rewritten in place between uses (sign, check through the aliased key value, overwrite, old message under new key); (c) every "
          "single-bit flip of library-signed messages. Oracle: crypto/hmac+crypto/sha1 over the span chosen by the reference parser; "
          "library verdict must equal oracle verdict, and must be 'fail' for flips of covered bytes. evaluations = Check calls "
          "judged; distinct_nontrivial = distinct base messages (FNV-64 of the bytes)",
@@ -118,7 +123,8 @@ prop(
     rule="(1) all 65536 ports x {IPv4, IPv6, IPv4-mapped IPv6, one-byte near misses of the ::ffff:0:0/96 prefix} x 7 address attribute entry points (XOR-MAPPED-ADDRESS, XORMappedAddress.AddToAs "
          "over 7 types, MAPPED-ADDRESS, MappedAddress.AddToAs, ALTERNATE-SERVER, RESPONSE-ORIGIN, OTHER-ADDRESS) with random addresses and "
          "transaction ids, plus extra random cases; (2) the four text attributes at every length 0..limit and limit+1; (3) every error "
-         "code 300..699 with 7 reason lengths; (4) UNKNOWN-ATTRIBUTES lists of 0..64 types. Each value: library bytes == independent RFC "
+         "code 300..699 with 9 reasons (several lengths, two ending in NUL); one address case in four writes the header first and assigns the "
+         "transaction id to the field before Encode; (4) UNKNOWN-ATTRIBUTES lists of 0..64 types. Each value: library bytes == independent RFC "
          "encoder, independent RFC decoder reads the library bytes, library getter reads both the re-decoded library message and a "
          "reference-encoded message (destination values reused across families). evaluations = values pushed through the cycle; "
          "distinct_nontrivial = distinct (port | text length x attribute | error code | type list) points",
@@ -137,7 +143,9 @@ prop(
     rule="complete grid of 18 getters/checkers x value length 0..40 x position (first/middle/last) x capacity (exact, +1,+2,+7,+20,+64), "
          "each cell repeated with fresh random content (10 quick / 100 thorough): twin messages sharing only the attribute value (plus "
          "transaction id; the covered prefix for MESSAGE-INTEGRITY; all bytes for FINGERPRINT) and differing in padding, neighbours "
-         "(twin A: bytes a sloppy reader accepts as family codes; twin B: 0xFF/random), position, spare capacity and its fill. "
+         "(twin A: bytes a sloppy reader accepts as family codes; twin B: 0xFF/random), position, spare capacity, its fill and the receiver (twin B may decode into a destination that held 16 stale bytes / a stale list). Plus "
+         "reuse chains (one Message refilled packet after packet, one receiver carried along, compared with fresh ones) and 8 goroutines "
+         "running getters on their own messages at once (also in the race build). "
          "Violations: recovered panic, outcome (error class + text, or produced value) differing between twins, any before/after "
          "difference of Raw/Length/Attributes. evaluations = twin pairs; distinct_nontrivial = grid cells visited",
     assumptions=[
@@ -169,7 +177,7 @@ prop(
     rule="every text setter (USERNAME 513, REALM/NONCE/SOFTWARE 763, ERROR-CODE reason 763, TextAttribute.AddToAs with limit 10) at every "
          "length 0..limit+300; 7 address setters x IP length 0..20 (nil and empty included); ErrorCode.AddTo for every code 0..999 plus "
          "out-of-range values; MessageIntegrity.AddTo with a FINGERPRINT-typed attribute at every position; Build with a failing setter "
-         "(4 kinds) at every index and optionally a second failing one later. Each against freshly generated preceding messages "
+         "(4 kinds) at every index and optionally a second failing one later (the returned error must be the setter's own error, not a wrapper). Each against freshly generated preceding messages "
          "(5 quick / 60 thorough per point). Oracle: hard-coded limit table for accept/reject and error class, before/after snapshot "
          "of Raw/Length/Attributes for atomicity, call counters for 'Build stops'. evaluations = setter calls; distinct_nontrivial = "
          "distinct (setter, boundary value) points",
@@ -186,7 +194,8 @@ prop(
     timeout={"quick": 300, "thorough": 3000},
     max_counters=["max_goroutines"],
     rule="seeded programs acquire(key) / write in random chunkings / sum (with a prefix buffer) / reset / more writes / sum / put over the SHA-1 "
-         "and SHA-256 pools: keys nil, 0..64 B, 63/64/65 B, 65..300 B, alternating long/short/empty between consecutive acquires; "
+         "and SHA-256 pools: keys nil, 0..64 B, 63/64/65 B, 65..300 B, alternating long/short/empty between consecutive acquires, one third of the programs "
+         "keeping ONE key buffer that is rewritten in place; "
          "message segments of 0,1,55,56,63,64,65,119,128 and random <=4096 bytes; (1) sequential, (2) 2..16 goroutines sharing the "
          "pools, (3) MessageIntegrity AddTo/Check from 16 goroutines. Every digest is compared with crypto/hmac. The race build runs "
          "the same workload under the race detector. evaluations = programs; distinct_nontrivial = distinct step-name sequences "
@@ -202,7 +211,8 @@ prop(
     rule="exhaustive: every call sequence of length 5 (quick) / 6 (thorough) over the 27-symbol alphabet {Start(id,t) 3x4, Stop(id) 3, "
          "StopWithError(id) 3, Process(id) 3, Collect(t) 4, SetHandler, Close} on a fresh Agent, every call's return class and event "
          "multiset (id, class, receiving handler) compared online with the executable transaction-table model (time points t0<t1<t2<t3 so "
-         "that deadline == collect time is hit); plus long random sequences (200..400 calls, 64 ids, deadlines on both sides of the "
+         "that deadline == collect time is hit); plus mass expiry (up to 1000 transactions expiring in one Collect), all pairs of 10 extreme instants (zero time, epoch, "
+         "year 1, both sides of the UnixNano limit in 2262, 9999), messages of all four classes, and long random sequences (200..400 calls, 64 ids, deadlines on both sides of the "
          "collect times, handlers that call Start back into the agent from inside an event). evaluations = sequences; "
          "distinct_nontrivial = distinct leading call pairs + distinct abstract table states visited + random sequences",
     assumptions=[
@@ -246,7 +256,8 @@ prop(
          "keys 0..120 B and FINGERPRINT); per message and warm-up regime (S1: Message/destinations first used for a strictly larger "
          "message; S2: first used for the same message) testing.AllocsPerRun(100) of Decode, Write, UnmarshalBinary, Get, Contains, "
          "ForEach, Get(absent), each typed GetFrom, Parse, MessageIntegrity.Check, Fingerprint.Check and Build with pre-boxed pointer "
-         "setters; a non-zero count must repeat in a second measurement to count. Dedicated process per batch, GOMAXPROCS=1, GC off "
+         "setters; a non-zero count must repeat in a second measurement to count; plus targeted cells: one destination across alternating "
+         "address families, a ForEach stopped early followed by Decode, explicit spare capacities around 20; release and debug builds. Dedicated process per batch, GOMAXPROCS=1, GC off "
          "during measurement. evaluations = measured operations; distinct_nontrivial = distinct messages",
     assumptions=[
         "MessageIntegrity as a *setter* is excluded from Build (the repository documents that it allocates); UNKNOWN-ATTRIBUTES lists are capped at 20 entries (documented)",
@@ -266,7 +277,7 @@ prop(
     rule="exhaustive: every string of length <= 5 (quick) / 6 (thorough) over the 20-symbol alphabet "
          "[ ] : ? = & % / @ . - + 0 9 a x # \\ space u-umlaut after each of the prefixes stun: stuns: turn: turns: stun:// and the empty "
          "prefix; plus seeded random inputs (grammar products of schemes/hosts/ports/queries, their mutations, random bytes incl. control "
-         "characters and invalid UTF-8, repeated structures, inputs of 4 KiB..1 MiB). Each worker child runs with a 1 MiB goroutine "
+         "characters and invalid UTF-8, repeated structures, inputs of 4 KiB..1 MiB), and 16 goroutines parsing at once (also in the race build). Each worker child runs with a 1 MiB goroutine "
          "stack limit and a 1 GiB heap watchdog and notes every input in a crash journal before the call; the supervising process "
          "decides: a child that dies or does not return is re-run on the journalled block alone, and a second death/non-return "
          "(60 s watchdog against microseconds of normal cost) is the violation. evaluations = ParseURI calls; distinct_nontrivial = "
@@ -286,7 +297,9 @@ prop(
          "(2) random/grammar-mutated strings judged by invariants + round trip; (3) DialURI through an injected transport.Net that "
          "records (network, address) and the bytes written: 16 parsed URIs covering every producible scheme/transport pair and IPv4/IPv6/"
          "name hosts, and all 5x3 hand-made Scheme/Proto values x 2 hosts; one STUN indication is sent to tell plaintext from a TLS/DTLS "
-         "ClientHello and to look for the server name. evaluations = URIs parsed + dials; distinct_nontrivial = grammar points + "
+         "ClientHello and to look for the server name; two secure dials from ONE DialConfig issued before the first handshake starts; real TLS "
+         "handshakes over an in-memory pipe with verification on (certificate for the URI's host must be accepted, for another host refused; "
+         "name, IPv4 and IPv6 literal hosts). evaluations = URIs parsed + dials; distinct_nontrivial = grammar points + "
          "distinct accepted mutations + dial scenarios",
     assumptions=[
         "forms the statement does not determine (+80, 080, empty port, separator-only queries, repeated or upper-case transport) are judged by invariants and round trip only",
@@ -309,8 +322,10 @@ prop(
          "handler invocations and their class, Do returned); (ii) every pairwise control-point interleaving: operation A in {Start, "
          "Start/no-retransmit, Do, tick with retransmission, tick with final timeout, delivery, Close, Close/no-conn-close} parked at "
          "each control point it passes (Clock, Agent.Start/Stop/Process/Collect/Close, Connection.Write/Close, Collector.Close, "
-         "agent callback, user handler), operation B in {Start same id, Start other id, Resp, Tick, Close, Do+Resp} run to completion or "
-         "seen blocked, next write ok/failing, then a follow-up phase (two fresh transactions answered) and Close; (iii) perturbed "
+         "agent callback, user handler; also with a collector whose Close does not wait for a running tick), operation B in {Start same "
+         "id, Start other id, Resp, Tick, Close, Resp+restart of the same id, Do+Resp} run to completion or "
+         "seen blocked, next write ok/failing, then a follow-up phase (two fresh transactions and a restart of the scenario's own id, all answered) and Close; targeted two-pause "
+         "scenario 'Do parked after its write, handler parked in the callback, Do released'; (iii) perturbed "
          "concurrent runs (2..8 goroutines of Start/Do/Indicate/SetRTO, responder with duplicates/unknown ids/garbage/drops, ticker, 1-2 "
          "closers, seeded yields at every control point); (iv) random histories of 50..300 events. Ledger oracles: no handler twice; "
          "nil-returning Start/Do => exactly one invocation at final quiescence; error-returning => none; every Do returned. "
@@ -337,7 +352,8 @@ prop(
          "deadline (t_k+(k+1)*r), with one interfering event (none, response, SetRTO, Close, caller reuses the message buffer) at every "
          "position; after each step the write log (bytes + virtual time) must show exactly the scheduled transmissions, each byte for "
          "byte the snapshot of msg.Raw taken when Start was called (the caller scribbles over the message right after Start returns), "
-         "and nothing after termination; plus random sizes/RTOs, all histories of 4-5 events over 2 ids with SetRTO and sizes "
+         "and nothing after termination; plus the library's ticker collector under a virtual clock held decades before wall time (no write before the deadline), random "
+         "sizes/RTOs, all histories of 4-5 events over 2 ids with SetRTO and sizes "
          "2049/3000/24 against the model's write count, the pairwise interleavings and perturbed concurrent runs with the write "
          "oracle (<= n+1 writes, identical bytes). evaluations = walks + histories + scenarios; distinct_nontrivial = distinct walk "
          "parameter tuples + history prefixes + scenarios",
@@ -357,13 +373,15 @@ prop(
     max_counters=["max_concurrent_transactions"],
     rule="(1) 1..500 transactions in flight at once, ids random or in a one-bit-apart family, half of the cases with a share timed out "
          "first (late responses); a shuffled plan of uniquely tagged datagrams (32..1024 bytes) with duplicates, unknown ids and "
-         "garbage (incl. STUN-looking with a bad length) is delivered one by one; every handler must have been invoked exactly once with "
+         "garbage (incl. STUN-looking with a bad length, runts of 0/1/19 bytes; header-only 20-byte responses; optionally the all-zero id in "
+         "flight) is delivered one by one; every handler must have been invoked exactly once with "
          "its own id and byte-for-byte the first datagram delivered for it, the fallback handler must have seen exactly the unmatched "
          "decodable datagrams in order, garbage nothing; (2) sequential churn: 2000 transactions per case on one client (Start/Do, "
          "1 in 50 timing out, 1 in 70 with a failing write) so that pooled transaction / wait-handler / buffer objects are recycled "
          "thousands of times; (3) all histories of 4-5 events with and without fallback handler (fallback count vs model); (4) pairwise "
          "interleavings with follow-up phase and perturbed concurrent runs with duplicate / one-bit-apart ids under the identity oracle "
-         "(event id == handler's id, Message.Raw == a datagram delivered for that id); the race build repeats (1),(4). "
+         "(event id == handler's id, Message.Raw == a datagram delivered for that id, the attribute list the handler sees == an "
+         "independent decode of that datagram, fallback event id == the datagram's id); the race build repeats (1),(4). "
          "evaluations = datagrams + transactions + histories + scenarios; distinct_nontrivial = cases",
     assumptions=[
         "datagrams are at most 1024 bytes (the client's read buffer)",
@@ -383,7 +401,9 @@ prop(
          "x {tapping agent, default agent} x 6 script variants (Start + pending Do + optional response + Start, then 1-3 sequential "
          "Close calls, then Start/Do/Indicate/SetRTO/late tick after Close); (2) every history of 4-5 events containing Close under 6 "
          "option sets; (3) pairwise interleavings with Close as A (paused at every control point incl. Collector.Close, Agent.Close, "
-         "Connection.Close) and as B; (4) perturbed concurrent runs with 1-4 concurrent closers; rel + race builds. Oracles: first Close "
+         "Connection.Close) and as B; (4) perturbed concurrent runs with 1-4 concurrent closers; (5) targeted: Close while the ticker collector is inside a tick, "
+         "6 goroutines entering Close at the same instant (thousands of rounds), Close under WithNoConnClose while the reader is still in "
+         "Read; rel + race builds. Oracles: first Close "
          "nil or CloseErr carrying exactly the injected errors, later ones ErrClientClosed; after the successful Close returned: no "
          "readUntilClosed / tickerCollector goroutine in a full goroutine dump, connection Close count 1 (0 with WithNoConnClose), "
          "collector Close count 1, no handler invocation begins, calls issued afterwards return ErrClientClosed and write nothing; "
